@@ -3,6 +3,8 @@ package main
 import (
 	"encoding/hex"
 	"fmt"
+	"os"
+	"path/filepath"
 	"strconv"
 	"strings"
 
@@ -11,7 +13,12 @@ import (
 	"github.com/DDP-Projekt/Kompilierer/src/token"
 )
 
-func init() { handlers["scan"] = cmdScan }
+func init() {
+	handlers["scan"] = func(args []string) string { return scanCmd(args, false) }
+	// the same request, but the scanner reads the source itself from a file (Options.Source == nil),
+	// as it does for every imported module
+	handlers["scanfile"] = func(args []string) string { return scanCmd(args, true) }
+}
 
 func codeName(c ddperror.Code) string {
 	switch c {
@@ -39,7 +46,7 @@ func showTok(t token.Token) string {
 }
 
 // scan <strict 0/1> <alias 0/1> <line> <col> <indent> <hex>
-func cmdScan(args []string) string {
+func scanCmd(args []string, byFile bool) string {
 	if len(args) == 5 {
 		args = append(args, "")
 	}
@@ -72,7 +79,20 @@ func cmdScan(args []string) string {
 		if src == nil {
 			src = []byte{}
 		}
-		toks, err = scanner.Scan(scanner.Options{FileName: "t.ddp", Source: src, ScannerMode: mode, ErrorHandler: h})
+		if byFile {
+			dir, derr := os.MkdirTemp(os.Getenv("VERIF_WORK"), "scan")
+			if derr != nil {
+				return "error " + hex.EncodeToString([]byte(derr.Error()))
+			}
+			defer os.RemoveAll(dir)
+			name := filepath.Join(dir, "t.ddp")
+			if werr := os.WriteFile(name, src, 0o644); werr != nil {
+				return "error " + hex.EncodeToString([]byte(werr.Error()))
+			}
+			toks, err = scanner.Scan(scanner.Options{FileName: name, Source: nil, ScannerMode: mode, ErrorHandler: h})
+		} else {
+			toks, err = scanner.Scan(scanner.Options{FileName: "t.ddp", Source: src, ScannerMode: mode, ErrorHandler: h})
+		}
 	}
 	if err != nil {
 		if de, ok := err.(ddperror.Error); ok && de.Code == ddperror.SYN_INVALID_UTF8 {
